@@ -1,8 +1,11 @@
 import PedalModel.DriverLoop
+import PedalModel.TifaFlow
 open Pedal
 
-/- Line-protocol driver for C09: replace the stub dispatch with the model's request handlers. -/
+/- Line-protocol driver for C09: the TIFA flow model (`tifaflow`) and the path semantics (`tifaspec`). -/
 def dispatch : List String → String
+  | "tifaflow" :: ts => TifaFlow.handle ts
+  | "tifaspec" :: ts => TifaFlow.handleSpec ts
   | _ => "bad-request"
 
 def main : IO Unit := driverMain dispatch
